@@ -7,8 +7,8 @@
    level exactly for u_i <= t (resp. < t for the binary quantizer), the uniform law on
    [0,1) being the definition of jax.random.uniform. *)
 From Coq Require Import ZArith QArith Qabs Qminmax List Bool.
-From FV Require Import Common.NanQ Common.QVec Common.WMean gen.Gen_compression gen.Gen_tree_util
-  Model.C07_Model Proofs.C07_Proofs Model.C11_Model Proofs.C11_Proofs Proofs.C11_Quant Proofs.C11_Agg.
+From FV Require Import Common.CMonoid Common.NanQ Common.NanVec Common.KeyPath Common.QVec Common.WMean gen.Gen_compression gen.Gen_walsh_hadamard
+  gen.Gen_tree_util Model.C07_Model Proofs.C07_Proofs Model.C11_Model Proofs.C11_Proofs Proofs.C11_Quant Proofs.C11_Agg Proofs.C11_Gen.
 Import ListNotations.
 Local Open Scope Q_scope.
 
@@ -142,6 +142,75 @@ Theorem C11_aggregate_error_bound : forall L cl us n e,
     vclose e (wmean_batch n (map (fun c => (snd c, concat (fst c))) cl)) v.
 Proof. exact usq_agg_error_bound. Qed.
 
+(* T: the quantizer bodies translated from compression.py on this run ARE the model functions
+   of the theorems above (rng = the vector of its uniform draws; jnp.std = the parameter sigma) *)
+Theorem C11_translated_quantizers_are_model :
+  (forall v L u, gen_usq v (NanQ.of_Z L) (lift u) None None = usq v L u) /\
+  (forall v u, gen_bsq v (lift u) None None = bsq v u) /\
+  (forall sigma v u, gen_tern (fun _ => Some sigma) v (lift u) = tern sigma v u) /\
+  (forall x, gen_drive_leaf x = drive_leaf x).
+Proof. exact (conj gen_usq_is_model (conj gen_bsq_is_model (conj gen_tern_is_model gen_drive_is_model))). Qed.
+
+(* T: the PRNG plumbing translated from the four apply() functions and the *_pytree functions
+   (which split index becomes the next state, which key seeds the per-client hk.PRNGSequence, which
+   key each quantizer / rotation / inverse rotation receives, leaf l gets split index l) is the path model *)
+Theorem C11_translated_keys_are_model : forall t c l,
+  usq_pytree_leaf_key (usq_agg_quant_key (iter_state usq_agg_next_state t) c) l = usq_key t c l /\
+  tern_pytree_leaf_key (tern_agg_quant_key (iter_state tern_agg_next_state t) c) l = tern_key t c l /\
+  (rot_pytree_leaf_key (drive_agg_rot_key (iter_state drive_agg_next_state t) c) l = drive_key t c l /\
+   inv_pytree_leaf_key (drive_agg_inv_key (iter_state drive_agg_next_state t) c) l = drive_key t c l) /\
+  (usq_pytree_leaf_key (rusq_agg_quant_key (iter_state rusq_agg_next_state t) c) l = rusq_key t c l /\
+   rot_pytree_leaf_key (rusq_agg_rot_key (iter_state rusq_agg_next_state t) c) l = rusq_rot_key t l /\
+   inv_pytree_leaf_key (rusq_agg_inv_key (iter_state rusq_agg_next_state t) c) l = rusq_rot_key t l) /\
+  iter_state usq_agg_next_state t = usq_state t /\ iter_state tern_agg_next_state t = tern_state t /\
+  iter_state drive_agg_next_state t = drive_state t /\ iter_state rusq_agg_next_state t = rusq_state t.
+Proof.
+  exact (fun t c l => conj (usq_key_gen t c l) (conj (tern_key_gen t c l) (conj (drive_key_gen t c l) (conj (rusq_key_gen t c l)
+    (conj (usq_state_gen t) (conj (tern_state_gen t) (conj (drive_state_gen t) (rusq_state_gen t)))))))).
+Qed.
+
+(* no key used for drawing / rotating is a proper prefix of another one *)
+Theorem C11_keys_prefix_free :
+  (forall t c l t' c' l' X, usq_key t c l ++ X = usq_key t' c' l' -> X = []) /\
+  (forall t c l t' c' l' X, tern_key t c l ++ X = tern_key t' c' l' -> X = []) /\
+  (forall t c l t' c' l' X, drive_key t c l ++ X = drive_key t' c' l' -> X = []) /\
+  (forall t c l t' c' l' X, rusq_key t c l ++ X = rusq_key t' c' l' -> X = []) /\
+  (forall t l t' l' X, rusq_rot_key t l ++ X = rusq_rot_key t' l' -> X = []) /\
+  (forall t l t' c' l' X, rusq_rot_key t l ++ X <> rusq_key t' c' l' /\ rusq_key t' c' l' ++ X <> rusq_rot_key t l).
+Proof.
+  exact (conj usq_key_prefix_free (conj usq_key_prefix_free (conj drive_key_prefix_free (conj rusq_key_prefix_free
+        (conj rusq_rot_key_prefix_free rusq_rot_quant_prefix_free))))).
+Qed.
+
+(* TernGrad aggregator: weighted mean of the per-client ternarised trees, coordinate-wise within
+   e of the weighted mean of the clipped inputs whenever e bounds every leaf's level s *)
+Theorem C11_terngrad_aggregate : forall n e (cl : list tclient),
+  cl <> [] -> Forall (tclient_ok n) cl -> 0 <= e ->
+  Forall (fun c => 0 <= snd c /\ Forall (fun x => tern_leaf_s x <= e) (fst c)) cl ->
+  exists v,
+    tern_agg (lift_clients (map (fun c => (map tl_leaf (fst c), snd c)) cl))
+             (map (fun c => map tl_s (fst c)) cl) (map (fun c => map tl_u (fst c)) cl) = Some (vlift v) /\
+    v =v= wmean_batch n (map swap (map tern_client_q cl)) /\
+    vclose e (wmean_batch n (map tern_client_ref cl)) v.
+Proof. exact tern_agg_spec. Qed.
+
+(* any quantiser whose per-client trees are finite and of equal size (in particular the rotated
+   pipelines, which return finite leaves whenever defined): aggregate = weighted mean.
+   PARTIAL for the rotated aggregators: that the pipeline is defined and size-preserving for every
+   input, and the squared-norm error bound, are not proved (see coverage/C11.md) *)
+Theorem C11_rotated_aggregate_is_wmean_partial :
+  (forall (qcl : list (list (list Q) * Q)) n, qcl <> [] -> Forall (fun c => length (concat (fst c)) = n) qcl ->
+     exists v, aggregate (lift_clients qcl) = Some (vlift v) /\
+               v =v= wmean_batch n (map (fun c => (snd c, concat (fst c))) qcl)) /\
+  (forall signs cl q,
+     all_some (map2 (fun c s => option_map (fun t => (t, snd c)) (drive_tree s (fst c))) cl signs) = Some q ->
+     drive_agg signs cl = aggregate q) /\
+  (forall L signs cl us q,
+     all_some (map2 (fun c u => option_map (fun t => (t, snd c)) (rusq_tree L signs (fst c) u)) cl us) = Some q ->
+     rusq_agg L signs cl us = aggregate q) /\
+  (forall f s x y, through_rotation f s x = Some y -> exists yq, y = lift yq).
+Proof. exact (conj aggregate_finite_is_wmean (conj drive_agg_unfold (conj rusq_agg_unfold through_rotation_finite))). Qed.
+
 (* keys: the split path used for (round t, client c, leaf l) determines (t, c, l), for all
    four aggregators and all histories; rotation keys of the rotated quantizer are distinct
    per (round, leaf) and never coincide with a quantisation key; the state key is never drawn from *)
@@ -190,5 +259,10 @@ Print Assumptions C11_terngrad_unbiased_clipped.
 Print Assumptions C11_never_nan.
 Print Assumptions C11_aggregate_is_wmean_of_quantised.
 Print Assumptions C11_aggregate_error_bound.
+Print Assumptions C11_translated_quantizers_are_model.
+Print Assumptions C11_translated_keys_are_model.
+Print Assumptions C11_keys_prefix_free.
+Print Assumptions C11_terngrad_aggregate.
+Print Assumptions C11_rotated_aggregate_is_wmean_partial.
 Print Assumptions C11_keys_distinct.
 Print Assumptions C11_bits_formula.
